@@ -21,19 +21,19 @@ func init() {
 
 	register(&core.Rule{ID: "C12.1", Prop: "C12", MinSites: 3,
 		Desc: "Get shape: non-nil returns are make([]byte, size, 1<<idx) / unsafe.Slice(ptr, 1<<idx)[:size] / make([]byte, size), with idx = index(uint32(size)) of the same size parameter",
-		Run: runC12_1})
+		Run:  runC12_1})
 	register(&core.Rule{ID: "C12.2", Prop: "C12", MinSites: 3,
 		Desc: "Put class: the class is computed from cap(buf), decremented when cap != 1<<idx, and zero / oversized capacities are dropped",
-		Run: runC12_2})
+		Run:  runC12_2})
 	register(&core.Rule{ID: "C12.4", Prop: "C12", MinSites: 8,
 		Desc: "no use after Put: after a slice/ring is returned to a pool it is not read again before its holder is reassigned; struct-field holders are cleared/replaced before the function returns",
-		Run: runC12_4})
+		Run:  runC12_4})
 	register(&core.Rule{ID: "C12.5", Prop: "C12", MinSites: 2,
 		Desc: "ring-buffer pool: Put resets the buffer before pooling it; Get falls back to ring.New",
-		Run: runC12_5})
+		Run:  runC12_5})
 	register(&core.Rule{ID: "C12.6", Prop: "C12", MinSites: 10,
 		Desc: "Put sites are an enumerated table of owners whose arguments are pool-obtained buffers, caller-owned parameters of the ownership-taking API, or the documented zone-string exception",
-		Run: runC12_6})
+		Run:  runC12_6})
 }
 
 func runC12_1(c *core.Ctx) {
@@ -354,19 +354,19 @@ func runC12_5(c *core.Ctx) {
 
 // putOwners: function -> reason its pool Put calls are legitimate.
 var putOwners = map[string]string{
-	"ring.(*Buffer).grow":             "the replaced backing array (obtained from Get or adopted at New) after its content was copied out",
-	"linkedlist.(*Buffer).Read":       "segment of a popped node that was consumed completely",
-	"linkedlist.(*Buffer).Discard":    "segment of a popped node that was discarded completely",
-	"linkedlist.(*Buffer).WriteTo":    "segment of a popped node that was written completely",
-	"linkedlist.(*Buffer).Reset":      "segments of all popped nodes",
-	"linkedlist.(*Buffer).ReadFrom":   "scratch slice from Get that received no bytes",
-	"linkedlist.(*Buffer).FreeNode":   "ownership-taking API: the caller gives the slice away",
-	"gnet.(*conn).Discard":            "c.cache, allocated by Peek from Get",
-	"gnet.(*conn).release":            "exception O2: zone strings of addresses (see DESIGN §6); not demonstrated to fail",
-	"elastic.(*RingBuffer).Done":      "the connection's pooled ring",
-	"elastic.(*RingBuffer).done":      "the connection's pooled ring once drained",
-	"byteslice.Put":                   "package-level forwarding wrapper",
-	"ringbuffer.Put":                  "package-level forwarding wrapper",
+	"ring.(*Buffer).grow":           "the replaced backing array (obtained from Get or adopted at New) after its content was copied out",
+	"linkedlist.(*Buffer).Read":     "segment of a popped node that was consumed completely",
+	"linkedlist.(*Buffer).Discard":  "segment of a popped node that was discarded completely",
+	"linkedlist.(*Buffer).WriteTo":  "segment of a popped node that was written completely",
+	"linkedlist.(*Buffer).Reset":    "segments of all popped nodes",
+	"linkedlist.(*Buffer).ReadFrom": "scratch slice from Get that received no bytes",
+	"linkedlist.(*Buffer).FreeNode": "ownership-taking API: the caller gives the slice away",
+	"gnet.(*conn).Discard":          "c.cache, allocated by Peek from Get",
+	"gnet.(*conn).release":          "exception O2: zone strings of addresses (see DESIGN §6); not demonstrated to fail",
+	"elastic.(*RingBuffer).Done":    "the connection's pooled ring",
+	"elastic.(*RingBuffer).done":    "the connection's pooled ring once drained",
+	"byteslice.Put":                 "package-level forwarding wrapper",
+	"ringbuffer.Put":                "package-level forwarding wrapper",
 }
 
 func runC12_6(c *core.Ctx) {
